@@ -1959,3 +1959,71 @@ def register_misc8(E):
 _old_register_all16=register_all
 def register_all(E):
     _old_register_all16(E); register_misc8(E)
+def m_map_drain(e,run,a,f):
+    m=deref(a[0]); order=map_order(run,m); ents=[m.e[i] for i in order]; m.e=[]
+    if m.is_set: return Iter([k for k,_ in ents])
+    return Iter([tuple2(k,v) for k,v in ents])
+def m_vec_drain(e,run,a,f):
+    d=deref(a[0]); n=len(d.items)
+    lo,hi=range_of(a[1],n)
+    if lo>hi or hi>n: raise Panic('drain range out of bounds','slice')
+    xs=d.items[lo:hi]; d.items=d.items[:lo]+d.items[hi:]; return Iter(xs)
+def register_misc9(E):
+    E.model(r'^(HashMap|HashSet|BTreeMap)::drain$',m_map_drain); E.model(r'^Vec::drain$',m_vec_drain)
+    E.model(r'^(HashMap|BTreeMap)::into_iter$',m_into_iter)
+_old_register_all17=register_all
+def register_all(E):
+    _old_register_all17(E); register_misc9(E)
+def m_io_error_kind(e,run,a,f):
+    d=deref(a[0]); k='NotFound' if (isinstance(d,Opaque) and d.p=='not found') else 'Other'
+    tab=e.enums['ErrorKind']; return Agg('ErrorKind',[],tab.index(k),k)
+def m_io_error_new(e,run,a,f): return Opaque('io::Error','other')
+def register_misc10(E):
+    E.model(r'^std::io::Error::kind$',m_io_error_kind); E.model(r'^std::io::Error::(new|other)$',m_io_error_new)
+_old_register_all18=register_all
+def register_all(E):
+    _old_register_all18(E); register_misc10(E)
+def m_map_append(e,run,a,f):
+    dst=deref(a[0]); src=deref(a[1])
+    for k,v in src.e: map_insert(run,dst,k,v)
+    src.e=[]; return UNIT
+def m_map_entry(e,run,a,f):
+    m=deref(a[0]); i=map_find(run,m,a[1])
+    return Opaque('MapEntry',{'m':m,'i':i,'k':a[1]})
+def _entry_slot(run,en,mk):
+    p=en.p
+    if p['i'] is None:
+        p['m'].e.append([p['k'],mk()]); p['i']=len(p['m'].e)-1
+    return Ref(p['m'].e[p['i']],1)
+def m_entry_or_insert(e,run,a,f): return _entry_slot(run,deref(a[0]),lambda: a[1])
+def m_entry_or_insert_with(e,run,a,f): return _entry_slot(run,deref(a[0]),lambda: e.call_value(run,a[1],[]))
+def m_entry_or_default(e,run,a,f):
+    m=re.search(r'Entry<[^,]*, (.*)>::or_default$',strip_t(f))
+    def mk():
+        t=(m.group(1) if m else '')
+        if t.startswith('Vec') or 'Vec<' in t: return VecO([])
+        if 'String' in t: return StringO([])
+        if 'Map<' in t: return MapO('BTree' in t)
+        if 'Set<' in t: return MapO('BTree' in t,True)
+        return Int(64,False,0)
+    return _entry_slot(run,deref(a[0]),mk)
+def m_entry_and_modify(e,run,a,f):
+    en=deref(a[0])
+    if en.p['i'] is not None: e.call_value(run,a[1],[Ref(en.p['m'].e[en.p['i']],1)])
+    return a[0]
+def m_map_first_last(which):
+    def m(e,run,a,f):
+        mm=deref(a[0])
+        if not mm.e: return none()
+        order=map_order(run,mm); i=order[0] if which=='first' else order[-1]
+        return some(tuple2(Ref(mm.e[i],0),Ref(mm.e[i],1))) if not mm.is_set else some(Ref(mm.e[i],0))
+    return m
+def register_misc11(E):
+    M=E.model
+    M(r'^(BTreeMap|BTreeSet|HashMap)::append$',m_map_append)
+    M(r'^(HashMap|BTreeMap)::entry$',m_map_entry)
+    M(r'Entry<.*>::or_insert$',m_entry_or_insert); M(r'Entry<.*>::or_insert_with$',m_entry_or_insert_with); M(r'Entry<.*>::or_default$',m_entry_or_default); M(r'Entry<.*>::and_modify$',m_entry_and_modify)
+    M(r'^(BTreeMap)::first_key_value$|^BTreeSet::first$',m_map_first_last('first')); M(r'^(BTreeMap)::last_key_value$|^BTreeSet::last$',m_map_first_last('last'))
+_old_register_all19=register_all
+def register_all(E):
+    _old_register_all19(E); register_misc11(E)
